@@ -61,7 +61,24 @@ theorem imports_ok :
     ∀ m ∈ QGen.publicModules, PyImp.importFirst QGen.graph (QGen.chainOf m) = .ok () := by
   decide +kernel
 
+/-- the module id of `quansino.mc` (what a reader of a restart file imports) -/
+def mcModule : Nat := QGen.moduleNames.idxOf "quansino.mc"
+
+/-- registered names of the shipped classes that `get_class` would NOT find after a fresh interpreter imported the
+    public module `m` first and then `quansino.mc` -/
+def registryMissing (m : Nat) : List String :=
+  let regd := (PyImp.registeredAfter QGen.graph QGen.registers (QGen.chainOf m) [QGen.chainOf mcModule]).map
+    (fun i => QGen.registeredNames.getD i "")
+  (QGen.classes.flatMap (·.registered)).filter (fun n => !regd.contains n)
+
+/-- **Registry.** Whichever public module a fresh interpreter imports first, once it has imported `quansino.mc` every
+    shipped class can be rebuilt by its registered name: the registration statements of all sub-packages have run. -/
+theorem registry_complete : ∀ m ∈ QGen.publicModules, registryMissing m = [] := by
+  decide +kernel
+
 /-! ## non-vacuity -/
+
+example : (QGen.classes.flatMap (·.registered)).length ≥ 20 ∧ mcModule < QGen.moduleNames.length := by decide +kernel
 
 /-- the table is not empty and has classes of every kind -/
 example : ∀ k ∈ [Kind.operation, .integrator, .criteria, .move, .storage, .driver],
